@@ -12,6 +12,7 @@ import (
 	"runtime/debug"
 	"strings"
 	"time"
+	"unsafe"
 )
 
 const (
@@ -37,6 +38,10 @@ type Task struct {
 	prio    int64
 	weight  float64
 	polling bool
+	held    bool
+	wants     bool
+	wantsLock uint64
+	heldLocks []uint64
 }
 
 // Outcome is an abnormal end of a simulation.
@@ -189,6 +194,7 @@ func Run(cfg Config, main func()) *Result {
 	t.wake <- struct{}{}
 	<-s.fin
 	raceEnable()
+	raceAcquire(unsafe.Pointer(s))
 	S = nil
 	s.Stats.Steps = s.steps
 	s.Stats.Choices = s.choices
@@ -273,6 +279,9 @@ func (s *Sim) exitTask(t *Task) {
 		fmt.Fprintf(os.Stderr, "simrt: step %d task %d %s exits (killed=%v)\n", s.steps, t.ID, t.Name, t.killed)
 	}
 	t.state = stDone
+	// everything a task did happens-before the end of the simulation (so
+	// that successive simulations in one process are ordered for the detector)
+	raceReleaseMerge(unsafe.Pointer(s))
 	j := 0
 	for _, x := range s.tasks {
 		if x != t {
@@ -303,7 +312,14 @@ func (s *Sim) deadlockOutcome() *Outcome {
 	var b strings.Builder
 	for _, t := range s.tasks {
 		if t.state == stBlocked {
-			fmt.Fprintf(&b, "[task %d %s (%s) blocked on %s] ", t.ID, t.Name, t.Tag, t.waitOn)
+			fmt.Fprintf(&b, "[task %d %s (%s) blocked on %s", t.ID, t.Name, t.Tag, t.waitOn)
+			if t.wants {
+				fmt.Fprintf(&b, "; wants inode lock %d", t.wantsLock)
+			}
+			if len(t.heldLocks) > 0 {
+				fmt.Fprintf(&b, "; holds inode locks %v", t.heldLocks)
+			}
+			b.WriteString("] ")
 		}
 	}
 	return &Outcome{Kind: "deadlock", Detail: b.String()}
@@ -317,9 +333,18 @@ func (s *Sim) pick(cur *Task) *Task {
 	var cand [64]*Task
 	n := 0
 	for _, t := range s.tasks {
-		if t.state == stRunnable && n < len(cand) {
+		if t.state == stRunnable && !t.held && n < len(cand) {
 			cand[n] = t
 			n++
+		}
+	}
+	if n == 0 {
+		// only held tasks (directed preemption) remain runnable: release them
+		for _, t := range s.tasks {
+			if t.state == stRunnable && n < len(cand) {
+				cand[n] = t
+				n++
+			}
 		}
 	}
 	if n == 0 {
@@ -619,6 +644,29 @@ func Quiesce() {
 			s.schedPoint()
 		}()
 	}
+}
+
+// HoldUntilOthersStuck parks the caller until every other task is blocked or
+// finished (directed preemption: "delay this step as long as possible").
+func HoldUntilOthersStuck() {
+	s := S
+	t := s.cur
+	t.held = true
+	defer func() { t.held = false }()
+	for othersRunnableUnheld() {
+		s.schedPoint()
+	}
+}
+
+//go:norace
+func othersRunnableUnheld() bool {
+	s := S
+	for _, t := range s.tasks {
+		if t != s.cur && t.state == stRunnable && !t.held {
+			return true
+		}
+	}
+	return false
 }
 
 // Scope runs f with the current task temporarily a member of group g. If the
